@@ -47,7 +47,8 @@ CHECKS.update({
     "C12": _mc("exhaustive pair exploration (original, copy) with an aliasing-graph oracle",
                "Every prefix (incl. an open context) x {Model.copy, deepcopy, pickle} x every one-step and reduced two-step "
                "edit sequence applied to either side; equality and object-graph disjointness at copy time, untouched side "
-               "unchanged after each step; Reaction/Metabolite copy and arithmetic on every element.",
+               "unchanged after each step, incl. operations handed an object of the other model; Reaction copy, +, -, *, sum (also "
+               "of reactions removed from the model) and Metabolite/Gene copies on every element, edited below the first level.",
                "Bench-sized model; the aliasing walk covers __dict__/list/dict/set/tuple, solver compared by identity and "
                "content.", "DESIGN.md §4 C12"),
     "C04": _mc("bounded exhaustive input family vs. exact rational simplex oracle",
@@ -82,8 +83,9 @@ CHECKS.update({
                "Independent evaluator mc/ref_gpr.py; states re-established through public setters.", "DESIGN.md §4 C07"),
     "C08": _mc("bounded exhaustive enumeration of expression trees x spellings x identifiers; oracle = the generated tree",
                "All and/or trees up to 4 leaves x 5 spellings, every leaf position x 56 awkward identifiers (all keywords, leading "
-               "digits, . - : / quotes =), text/copy/pickle/symbolic round trips, == implies equivalence pairwise, remove_genes "
-               "for every gene subset in both modes.", "Mixed &/| with and/or without parentheses and backslash are outside the "
+               "digits, . - : / quotes =), text/copy/pickle/symbolic/constructor round trips, knock-outs given as set/str/list/tuple, "
+               "== implies equivalence pairwise, remove_genes for every gene subset in both modes (the rule a rule was derived from "
+               "stays unchanged).", "Mixed &/| with and/or without parentheses and backslash are outside the "
                "property.", "DESIGN.md §4 C08"),
     "C09": _mc("bounded exhaustive input family vs. exact LP / exhaustive binary enumeration of the documented formulation",
                "Feasible family members x objectives x pfba (fractions, objective/reactions forms), linear MOMA, ROOM (MILP by "
@@ -94,7 +96,8 @@ CHECKS.update({
                "default x {path, handle, string}, all feature pairs, f_replace={}, Configuration bounds; every shipped SBML file; "
                "third-party document shapes (incl. flux bounds left out in non-strict documents; single and all pairs) derived "
                "with libsbml, compared with an independent extraction under log capture and re-read with the document's lists "
-               "reversed (same content); save, edit in place, save again.", "libsbml reader/validator trusted; numbers compared to 15 significant digits.",
+               "reversed (same content); 18 legacy level-2 documents (kinetic-law parameters, boundary species); save, edit in place, "
+               "save again.", "libsbml reader/validator trusted; numbers compared to 15 significant digits.",
                "DESIGN.md §4 C10"),
     "C11": _mc("bounded exhaustive feature product x formats x options; content equality and idempotence",
                "Feature-product models x {json str/path/handle+pretty, yaml str/path, dict, pickle} x sort on/off x Configuration "
